@@ -114,6 +114,26 @@ def backend_view(sim, tracked, sched, accounting=True):
     return out
 
 
+def latest_jobs(sim, sched, names=None):
+    """name -> id of the latest job the scheduler accepted under that name from user 'me' (the scheduler's own table)"""
+    out = {}
+    for j in sorted(sim.jobs().values(), key=lambda j: int(j["id"])):
+        if j["user"] == "me" and j["sched"] == sched and (names is None or j["name"] in names):
+            out[j["name"]] = j["id"]
+    return out
+
+
+def check_tracked(res, sim, sched, tracked, names, ctx):
+    """the tracked-jobs file must name, for every target the scheduler has a job for, the LATEST such job"""
+    truth = latest_jobs(sim, sched, names)
+    stale = {n: (tracked.get(n), truth[n]) for n in truth if str(tracked.get(n)) != truth[n]}
+    if stale:
+        res.violation("stale-tracked-id", "tracked-jobs file does not name the latest job of %s (file id, scheduler's latest id): %s" % (sorted(stale), stale), **ctx)
+    merged = dict(tracked)
+    merged.update(truth)
+    return merged
+
+
 def tracked_file(sched):
     return "%s-backend-tracked.json" % sched
 
